@@ -239,7 +239,7 @@ def classifier_correspondence(ctx: Ctx) -> None:
     thr = [-1.0, -1e-3, -1e-5, 1e-9, 1e-6, 0.0]
     lines, exp = [], []
     for _ in range(ctx.scale(300, 2000)):
-        n = rng.choice([1, 2, 3, 7, 8, 9, 12])
+        n = rng.choice([1, 2, 3, 6, 6, 7, 8, 9, 12])       # 6 = a pair of atoms: no vibrational block beyond index 6
         eigs = []
         for _k in range(n):
             t = rng.choice(thr)
@@ -316,6 +316,35 @@ def predicates(ctx: Ctx) -> None:
         if not np.allclose(H, refH, rtol=1e-6, atol=1e-6):
             ctx.fail("coded-hessian:Camelback", f"Camelback.hessian({x.tolist()}) = {H.tolist()} but the "
                      f"derivative of the gradient is {refH.tolist()}", {"x": x.tolist()})
+    # the same point handed over as an integer-typed array (lattice points are typical hand-written start points): the
+    # derivative is a function of the point, not of the array's dtype.  Judged against the derivative of the coded
+    # function itself (Richardson on a float copy), and against the float call.
+    for _ in range(ctx.scale(12, 60) * deep):
+        xi = [rng.randrange(-2, 3), rng.randrange(-1, 2)]
+        for dt in (np.int64, np.int32, object):
+            x = np.array(xi, dtype=dt)
+            ctx.stats.case({"pred": "camel-integer-position", "x": xi, "dtype": np.dtype(dt).name}, True)
+            xf = np.array(xi, dtype=float)
+            ref = richardson_grad(cam.function, xf)
+            try:
+                g = np.asarray(cam.gradient(x.copy()), dtype=float)
+                fv, fg = cam.function_gradient(x.copy())
+                H = np.asarray(cam.hessian(x.copy()), dtype=float)
+                f0 = float(cam.function(x.copy()))
+            except Exception as e:  # noqa: BLE001
+                ctx.fail("coded-gradient:Camelback:integer-position", f"Camelback raised {type(e).__name__} for the position "
+                         f"{xi} given as a {np.dtype(dt).name} array: {e}", {"x": xi, "dtype": np.dtype(dt).name})
+                continue
+            bad = None
+            if not np.allclose(g, ref, rtol=1e-6, atol=1e-7):
+                bad = f"gradient {g.tolist()} but the derivative of Camelback.function there is {ref.tolist()}"
+            elif not np.allclose(np.asarray(fg, dtype=float), g, rtol=1e-12, atol=0) or not close(float(fv), f0, 1e-12):
+                bad = f"function_gradient {(float(fv), np.asarray(fg, dtype=float).tolist())} differs from function {f0} / gradient {g.tolist()}"
+            elif not np.allclose(H, cam.hessian(xf), rtol=1e-12, atol=1e-12) or not close(f0, float(cam.function(xf)), 1e-12):
+                bad = f"function / Hessian differ from the values for the float array ({f0}, {H.tolist()})"
+            if bad:
+                ctx.fail("coded-gradient:Camelback:integer-position", f"Camelback at {xi} given as a {np.dtype(dt).name} "
+                         f"array: {bad}", {"x": xi, "dtype": np.dtype(dt).name})
     # what was returned for one point stays the derivative at that point after the surface is evaluated elsewhere
     # (a caller keeps the Hessians / gradients of several stationary points side by side)
     for _ in range(ctx.scale(10, 60) * deep):
@@ -463,14 +492,17 @@ def predicates(ctx: Ctx) -> None:
 
 def cluster_classifier(ctx: Ctx) -> None:
     """real cluster minima (Lennard-Jones and Gupta, relaxed here): when the library's own Hessian has an unambiguous
-    spectrum — six modes below 1e-3 in magnitude (translations and rotations), all others above 1e-2 — the point is a
-    minimum and not a transition state, and the classifiers of an atomistic surface must say so"""
+    spectrum — six modes below 1e-3 in magnitude (translations and rotations; five for a pair of atoms, which is
+    linear), all others above 1e-2 — the point is a minimum and not a transition state, and the classifiers of an
+    atomistic surface must say so"""
     import warnings
     from topsearch.minimisation import lbfgs
     from topsearch.potentials.atomic import BinaryGupta, LennardJones
     rng = ctx.rng
-    for it in range(ctx.scale(4, 16)):
-        n = rng.choice([4, 5, 6])
+    for it in range(ctx.scale(6, 20)):
+        n = rng.choice([2, 3, 4, 5, 6])
+        if it < 2:
+            n = 2 + it                       # the pair and the triangle are always among the cases
         if it % 2 == 0:
             pot, scale, name = LennardJones(), 1.12, "LennardJones"
         else:
@@ -485,7 +517,8 @@ def cluster_classifier(ctx: Ctx) -> None:
             H = pot.hessian(np.array(x, dtype=float).copy())
         w = np.linalg.eigvalsh((H + H.T) / 2)
         small = [v for v in w if abs(v) < 1e-3]
-        if d.get("warnflag") != 0 or len(small) != 6 or any(v < 1e-2 for v in w if abs(v) >= 1e-3):
+        rigid = 5 if n == 2 else 6
+        if d.get("warnflag") != 0 or len(small) != rigid or any(v < 1e-2 for v in w if abs(v) >= 1e-3):
             ctx.stats.near_ties += 1          # not an unambiguous minimum (flat mode, unconverged): no verdict
             continue
         co = _Coords(3 * n, False)
@@ -494,7 +527,7 @@ def cluster_classifier(ctx: Ctx) -> None:
         ctx.stats.case({"pred": "cluster-classifier", "surface": name, "n": n}, True)
         if not vm or vt:
             ctx.fail(f"classifier-disagrees:cluster-minimum:{name}",
-                     f"relaxed {n}-atom {name} cluster: Hessian spectrum has 6 modes below 1e-3 and all others above 1e-2 "
+                     f"relaxed {n}-atom {name} cluster: Hessian spectrum has {rigid} modes below 1e-3 and all others above 1e-2 "
                      f"(lowest {w[:7].round(6).tolist()}), but check_valid_minimum = {vm}, check_valid_ts = {vt} "
                      f"(atomistic flag of the surface: {getattr(pot, 'atomistic', None)})",
                      {"surface": name, "x": np.asarray(x).tolist(), "species": getattr(pot, "species", None)})
